@@ -82,7 +82,7 @@ def parseFuncLookup (j : Json) : Except String FuncLookup := do
   | "notFunc" => pure .notFunc
   | "func" => pure (.func { name := ← getStr j "name", pkgPath := ← getStr j "pkgPath",
                             exported := ← getBool j "exported", params := ← natList j "params",
-                            results := ← natList j "results" })
+                            results := ← natList j "results", variadic := ← getBool j "variadic" })
   | _ => pure .notFound
 
 def parseComment (j : Json) : Except String Comment := do
